@@ -39,7 +39,7 @@ Definition snap_sess (sn : dsnap) (mac : N) : option (N * N * bool) :=
 (* first clause violated for an ended session, on the snapshot after the operation *)
 Definition dcheck (sn : dsnap) (starts stops : list N) (mac ip cid sid : N) : option N :=
   if ahas mac (sn_alloc sn) || negb (smem ip (sn_avail sn) || smem ip (sn_unavail sn)) then Some 0
-  else if smem ip (sn_nat sn) then Some 1
+  else if smem ip (sn_nat sn) || smem ip (sn_natk sn) then Some 1
   else if smem ip (sn_qos sn) || smem ip (sn_qosi sn) || smem ip (sn_qost sn) then Some 2
   (* a cache entry answers for the session when it is keyed by its MAC or circuit-id, or when it names
      the session's MAC (circuit_id_map) or address (circuit_id_subscribers, VLAN map) under ANY key —
@@ -88,6 +88,19 @@ Definition daccept (st : dss) (o : dop) (r : dout) : dss + N :=
         | _ => None
         end
     end in
+  (* a session that is replaced ends too: an Accounting-Start for a client whose previous accounting session
+     was started and never stopped (a run-out lease re-admitted as a new session before the reaper met it)
+     leaves that session without its Stop for good *)
+  let replaced : bool :=
+    match o with
+    | Request mac _ _ _ =>
+        match evs 1 (o_acct r), aget mac (p_sid st) with
+        | _ :: _, Some old => (1 <=? count old (p_starts st)) && (count old stops =? 0)
+        | _, _ => false
+        end
+    | _ => false
+    end in
+  if replaced then inr 4 else
   match first_some check1 ended with
   | Some c => inr c
   | None =>
